@@ -75,7 +75,7 @@ pub fn edits1(s: &str, alphabet: &[&str], f: &mut dyn FnMut(&str)) {
     }
 }
 
-pub const P15: [&str; 15] = [
+pub const P15: [&str; 17] = [
     "r3k2r/pppppppp/8/8/8/8/PPPPPPPP/R3K2R w KQkq - 0 1",
     "7k/8/8/8/8/8/N1N5/K7 w - - 0 1",
     "R7/7k/8/8/8/8/8/R3K3 w - - 0 1",
@@ -91,9 +91,12 @@ pub const P15: [&str; 15] = [
     "rnbqkbnr/pppppppp/8/8/8/8/PPPPPPPP/RNBQKBNR w KQkq - 0 1",
     "4k3/8/8/PpP5/8/8/8/4K3 w - b6 0 1",
     "1r5k/P1P5/8/8/8/8/8/K7 w - - 0 1",
+    // enemy men on the mover's own back rank, own pawns next to them
+    "4k3/8/8/8/8/8/1P6/r1n1K2b w - - 0 1",
+    "4k3/8/8/8/8/1P6/PP5P/rnb1K2r w - - 0 1",
 ];
 
-/// P30: the fifteen positions above and their colour-mirrored twins
+/// P30: the seventeen positions above and their colour-mirrored twins (34 positions)
 pub fn p30() -> Vec<Pos> {
     let mut v = Vec::new();
     for f in P15 {
